@@ -215,6 +215,22 @@ impl EncodingFile {
         // Validate header
         header.validate()?;
 
+        // Every section size below is a header field: make sure the input can hold
+        // the ESpec block, both page indices (32 bytes per page) and all pages
+        // before allocating buffers sized by them.
+        let remaining = (data.len() as u64).saturating_sub(cursor.position());
+        let required = u64::from(header.espec_block_size)
+            + u64::from(header.ckey_page_count) * (32 + header.ckey_page_size() as u64)
+            + u64::from(header.ekey_page_count) * (32 + header.ekey_page_size() as u64);
+        if required > remaining {
+            return Err(EncodingError::Io(std::io::Error::new(
+                std::io::ErrorKind::UnexpectedEof,
+                format!(
+                    "header describes {required} bytes of tables but only {remaining} bytes follow it"
+                ),
+            )));
+        }
+
         // Read ESpec table (comes right after header per CASC specification)
         let mut espec_data = vec![0u8; header.espec_block_size as usize];
         cursor.read_exact(&mut espec_data)?;
